@@ -2,7 +2,7 @@
 import ast
 
 from sa.astutil import (call_name, calls_in, dotted, fact_texts, last_attr, norm,
-                        walk_no_nested, block_always_exits, facts_at)
+                        walk_no_nested, block_always_exits, facts_at, positive_fact)
 from sa.loader import AnalysisError
 
 
@@ -570,6 +570,7 @@ def pair_fact_kind(pair):
     pair_params = [a.arg for a in pair.args.args if a.arg != 'self']
 
     def fact_kind(expr, positive):
+        expr, positive = positive_fact(expr, positive)
         if isinstance(expr, ast.Call) and last_attr(expr) == 'check_distance' and \
                 sorted(norm(a) for a in expr.args) == sorted(pair_params):
             return 'criterion' if positive else 'not-criterion'
@@ -578,7 +579,7 @@ def pair_fact_kind(pair):
             if isinstance(op, (ast.IsNot, ast.NotEq)) and positive and \
                     sorted([norm(lhs), norm(rhs)]) == sorted(pair_params):
                 return 'irreflexive'
-            if isinstance(op, ast.In) and not positive and isinstance(rhs, ast.Attribute) \
+            if isinstance(op, ast.NotIn) and positive and isinstance(rhs, ast.Attribute) \
                     and rhs.attr == 'bonded_atoms' and \
                     sorted([norm(lhs), norm(rhs.value)]) == sorted(pair_params):
                 return 'not-yet-bonded'
